@@ -114,7 +114,11 @@ func slimOf(s Stream) Stream {
 		for _, m := range so.Tap {
 			so.TapLens = append(so.TapLens, len(m))
 		}
-		so.Tap, so.Reads = nil, nil
+		so.FrameLens = nil
+		for _, f := range so.Frames {
+			so.FrameLens = append(so.FrameLens, len(f))
+		}
+		so.Tap, so.Reads, so.Frames = nil, nil, nil
 		s.Obs = &so
 	}
 	return s
@@ -131,6 +135,45 @@ func oracle(s Stream, idx int, res *lib.Result) {
 		return
 	}
 	input := genBytes(s.Seed, 0, s.total())
+	if s.Kind == "wsout" {
+		input = s.wsoutInput()
+		// every websocket message received is a contiguous slice of the stream, and the messages go forward
+		// (gaps BETWEEN messages are what the hub dropped for a slow client; none INSIDE a message)
+		starts := s.wsoutStarts()
+		end := 0
+		where := func(piece []byte) int { // the input offset a piece carries (-1: none)
+			if k := wsoutIndex(piece); k >= 0 {
+				return k * s.Blk
+			}
+			return -1
+		}
+		for j, f := range o.Frames {
+			k := starts[j]
+			off := k * s.Blk
+			switch {
+			case k < 0 || off+len(f) > len(input) || !bytes.Equal(f, input[off:off+len(f)]):
+				// say where its pieces come from
+				pieces := []string{}
+				for p := 0; p < len(f) && len(pieces) < 6; p += s.Blk {
+					q := p + s.Blk
+					if q > len(f) {
+						q = len(f)
+					}
+					pieces = append(pieces, fmt.Sprintf("%d", where(f[p:q])))
+				}
+				bad("not-a-contiguous-slice", fmt.Sprintf("websocket message %d (%d bytes) is not a contiguous slice of the stream: its %d-byte pieces come from input offsets %v", j, len(f), s.Blk, pieces))
+			case off < end:
+				bad("repeat-or-backwards", fmt.Sprintf("websocket message %d is input[%d:%d], the previous one ended at %d", j, off, off+len(f), end))
+			}
+			if k >= 0 {
+				end = off + len(f)
+			}
+		}
+		if len(o.Frames) == 0 {
+			bad("nothing-received", "the websocket client received nothing at all")
+		}
+		return
+	}
 	type span struct{ a, b int }
 	spans := make([]span, len(o.Tap))
 	whole := s.Kind == "ws" || s.Kind == "rev"
@@ -224,6 +267,9 @@ func main() {
 		for i := 0; i < n; i++ {
 			r := rng.Fork()
 			kind := []string{"ts", "ts", "ts", "tcp", "tcp", "ws", "ws", "rev"}[i%8]
+			if i%23 == 22 {
+				kind = "wsout"
+			}
 			streams = append(streams, genStream(r, kind, i))
 		}
 	}
@@ -270,6 +316,15 @@ func main() {
 		res.Count("streams:" + s.Kind)
 		res.CountN("bytes-posted", o.Posted)
 		res.CountN("hand-offs", len(o.Tap))
+		if s.Kind == "wsout" {
+			res.CountN("wsout:hub-messages", s.Count)
+			res.CountN("wsout:websocket-messages-received", len(o.Frames))
+			for _, f := range o.Frames {
+				if len(f) > s.Blk {
+					res.Count("wsout:websocket-messages-longer-than-one-hub-message")
+				}
+			}
+		}
 		for k, m := range o.Tap {
 			if len(m) == s.MaxFrame {
 				res.Count("full-buffer-frames")
